@@ -93,7 +93,7 @@ impl Utf8Decoder {
         }
     }
 
-    fn consume(&mut self) -> char {
+    fn consume(&mut self) -> Option<char> {
         let result = utf8_decode(&self.buffer[..self.offset]);
         self.reset();
         result
@@ -128,7 +128,13 @@ impl Decoder for Utf8Decoder {
                 Some(state) if UTF8DFA.info(state).is_accepting => {
                     self.push(*byte);
                     buf.consume(consume);
-                    return Ok(Some(self.consume()));
+                    return match self.consume() {
+                        Some(character) => Ok(Some(character)),
+                        None => {
+                            use std::io::{Error, ErrorKind};
+                            Err(Error::new(ErrorKind::InvalidInput, "utf8 decoder failed"))
+                        }
+                    };
                 }
                 Some(state) => {
                     self.push(*byte);
@@ -922,7 +928,7 @@ impl Matcher for UTF8Matcher {
     }
 
     fn decode(&self, data: &[u8]) -> Option<Self::Item> {
-        Some(utf8_decode(data))
+        utf8_decode(data)
     }
 }
 
@@ -1325,8 +1331,9 @@ fn number_decode(data: &[u8]) -> Option<usize> {
 // Convert slice to a character
 //
 // NOTE: this function must only be used on a validated buffer
-// containing single UTF8 character.
-fn utf8_decode(slice: &[u8]) -> char {
+// containing single UTF8 character. Returns `None` if encoded value is not
+// a valid unicode scalar value (surrogate or value above U+10FFFF).
+fn utf8_decode(slice: &[u8]) -> Option<char> {
     let first = slice[0] as u32;
     let mut code: u32 = match slice.len() {
         1 => first & 127,
@@ -1339,7 +1346,7 @@ fn utf8_decode(slice: &[u8]) -> char {
         code <<= 6;
         code |= (*byte as u32) & 63;
     }
-    unsafe { std::char::from_u32_unchecked(code) }
+    std::char::from_u32(code)
 }
 
 #[derive(Debug, Clone, Copy)]
